@@ -11,7 +11,7 @@ ITERS = 6
 MICRO = 1000000
 
 
-def gen_case(rng, ident, mode):
+def gen_case(rng, ident, mode, family="mixed"):
     """mode: 'complete' (all tunable atoms observed in every example) or 'partial'."""
     p = progs.empty_program(consts=())
     p["id"] = ident
@@ -31,17 +31,20 @@ def gen_case(rng, ident, mode):
         base.append(name)
         ref[name] = pr / 10.0
     ad = None
-    if rng.random() < 0.55:
-        k = rng.randint(2, 3)
+    if rng.random() < 0.55 or family != "mixed":
+        k = rng.randint(2, 3) if family != "multi_fixed" else 4
         heads = []
         rem = 9
-        fixed_head = rng.random() < 0.25
+        fixed_head = rng.random() < 0.25 and family == "mixed"
+        nfixed = 1 if fixed_head else (2 if family == "multi_fixed" else 0)
+        fixed_pos = set(rng.sample(range(k), nfixed)) if family == "multi_fixed" else ({k - 1} if fixed_head else set())
+        fixed_head = bool(fixed_pos)
         for i in range(k):
-            v = rng.randint(1, max(1, min(4, rem - (k - i - 1))))
+            v = rng.randint(1, max(1, min(4 if k < 4 else 2, rem - (k - i - 1))))
             rem -= v
             h = {"p": [v, 10], "atom": atom("m%d" % (i + 1))}
-            if not (fixed_head and i == k - 1):
-                h["ptext"] = "t(0.%d)" % v
+            if i not in fixed_pos:
+                h["ptext"] = "t(0.%d)" % v if (family != "multi_fixed" or rng.random() < 0.5) else "t(_)"
             heads.append(h)
         body = []
         if rng.random() < 0.4:
@@ -51,6 +54,17 @@ def gen_case(rng, ident, mode):
         # reference head distribution
         cuts = sorted(rng.sample(range(1, 10), k))
         refp = [cuts[0]] + [cuts[i] - cuts[i - 1] for i in range(1, k)]
+        if (rng.random() < 0.5 or family == "complete_ad") and not fixed_head:
+            # a complete AD: reference and initial values sum to one, so no example can show 'none of the heads'
+            refp[-1] += 10 - sum(refp)
+            tot = sum(h["p"][0] for h in heads)
+            heads[-1]["p"][0] += 10 - tot
+            for h in heads:
+                h["ptext"] = "t(0.%d)" % h["p"][0] if h["p"][0] < 10 else "t(1.0)"
+            if rng.random() < 0.4:
+                for h in heads:
+                    h["ptext"] = "t(_)"
+                p["anon_ad"] = True
         ad["ref"] = [x / 10.0 for x in refp]
     pool = list(base) + ([h["atom"]["f"] for h in ad["heads"]] if ad else [])
     derived = []
@@ -82,6 +96,8 @@ def gen_case(rng, ident, mode):
                     if r < acc:
                         w[h["atom"]["f"]] = True
                         break
+                else:
+                    p["ad_null_in_data"] = True        # an example in which the AD fires and none of its heads is chosen
         for hn in derived:
             w[hn] = any(all(w[l["atom"]["f"]] == (l["s"] == 1) for l in r_["body"]) for r_ in p["rules"] if r_["head"]["f"] == hn)
         if mode == "complete":
@@ -107,8 +123,12 @@ VARIANTS = [("cli", {"normalize": True, "propagate_evidence": True}),
 def run(ctx):
     rng = random.Random(ctx.seed * 31 + 2424)
     cases = []
-    for i in range(ctx.pick(60, 700)):
+    for i in range(ctx.pick(50, 700)):
         cases.append(gen_case(rng, i, "complete" if i % 3 == 0 else "partial"))
+    for i in range(ctx.pick(40, 400)):          # complete tunable ADs, mostly partially observed
+        cases.append(gen_case(rng, len(cases), "complete" if i % 5 == 0 else "partial", family="complete_ad"))
+    for i in range(ctx.pick(20, 200)):          # ADs with two fixed and two tunable heads
+        cases.append(gen_case(rng, len(cases), "complete" if i % 2 == 0 else "partial", family="multi_fixed"))
     jobs, idx = [], []
     for ci, p in enumerate(cases):
         for vn, opts in VARIANTS:
@@ -194,10 +214,18 @@ def run(ctx):
                 if nm in tfacts:
                     c = sum(1 for e in p["examples"] for a, v in e if a == nm and v)
                     counts.append({"i": pos[i], "c": c})
+        # AD groups and the mass of their fixed heads are taken from the generated program, not from LFI's own tables
         groups, fixed = [], []
-        for av, g in r["groups"]:
-            groups.append([pos[i] for i in g])
-            fixed.append(int(round((1.0 - av) * MICRO)))
+        pos_of_name = {nm: pos[i] for i, nm in name_of.items()}
+        for nm in tfacts:
+            if nm in pos_of_name:
+                groups.append([pos_of_name[nm]])
+                fixed.append(0)
+        for ad_ in p["ads"]:
+            g = [pos_of_name[h["atom"]["f"]] for h in ad_["heads"] if h.get("ptext") and h["atom"]["f"] in pos_of_name]
+            if g:
+                groups.append(g)
+                fixed.append(sum(h["p"][0] for h in ad_["heads"] if not h.get("ptext")) * (MICRO // 10))
 
         def mic(x):
             return int(round(max(-2000.0, min(2000.0, x)) * MICRO))
@@ -214,7 +242,9 @@ def run(ctx):
         rec = {"case": p, "variant": vn, "run": r, "judge_case": case, "judge": j}
         sig0 = {"variant": vn, "mode": p["mode"], "has_ad": bool(p["ads"]), "ad_body": bool(p["ads"] and p["ads"][0]["body"]),
                 "normalize": bool(dict(VARIANTS)[vn].get("normalize")),
-                "ad_fixed_head": bool(p["ads"] and any(not h.get("ptext") for h in p["ads"][0]["heads"]))}
+                "ad_fixed_head": bool(p["ads"] and any(not h.get("ptext") for h in p["ads"][0]["heads"])),
+                "ad_null_in_data": bool(p.get("ad_null_in_data")),
+                "learnable_heads": sum(1 for h in p["ads"][0]["heads"] if h.get("ptext")) if p["ads"] else 0}
         lls = [s["ll"] for s in r["steps"][1:]]
         if len(set(case["ll"])) > 1:
             nontriv += 1
@@ -231,7 +261,7 @@ def run(ctx):
                           "[%s] after iteration %d the AD parameters are %s\n%s\nexamples: %s" % (vn, s - 1, r["steps"][s - 1]["w"], t, p["examples"]), rec)
         if not j["adsum"]:
             for s, k in j["adsumFixed"][:1]:
-                ctx.violation(dict(sig0, clause="ad-sum-with-fixed-heads-exceeds-one", learnable_heads=len(case["groups"][k - 1])),
+                ctx.violation(dict(sig0, clause="ad-sum-with-fixed-heads-exceeds-one"),
                               "[%s] after iteration %d the learned AD parameters %s plus the fixed heads' mass %g exceed 1; learned model:\n%s\nmodel:\n%s\nexamples: %s" % (
                                   vn, s - 1, [r["steps"][s - 1]["w"][i - 1][3] for i in case["groups"][k - 1]], case["fixed"][k - 1] / MICRO,
                                   r["model"], t, p["examples"]), rec)
